@@ -499,7 +499,20 @@ def reshape_helpers(ctx, rule):
 
 RULES["R16.5"] += " | E6 fall-back: on every accepting path of connect the path facts contain an equality between the element counts of layers[infrom].inputs and layers[into].inputs (Single(n) -> n, Triple(c,h,w) -> c*h*w)"
 
+def skip_gradient_scale(ctx):
+    """`the skip gradient reaches the source unscaled`: the only scale a layer's backward applies is 1/loops, and `loops` is written by
+    Network::loopback alone - a skip connection never changes it (C01's R01.9 facts re-run under this property)"""
+    from . import c01
+    sub = type(ctx)(ctx.prop, ctx.facts)
+    sub.guard("R01.9", "scale-factors", c01.r9, sub)
+    bad = [o for o in sub.obligations if o["status"] != "ok"]
+    for o in bad:
+        ctx.bad("R16.4", "scale:" + o["instance"], o["key"].split("/", 3)[-1], o["where"], o["detail"])
+    ctx.check("R16.4", "gradient-scale", not bad and len(sub.obligations) >= 7, "skip-gradient-scaled", "src/network.rs", "%d facts: `loops` is written only by loopback" % len(sub.obligations))
+
+
 def run(ctx):
+    ctx.guard("R16.4", "gradient-scale", skip_gradient_scale, ctx)
     from .common import accumulation_setter
     ctx.guard("R16.3", "accumulation-setter", accumulation_setter, ctx, "R16.3")
     ctx.guard("R16.6", "reshape", reshape_helpers, ctx, "R16.6")
